@@ -124,6 +124,7 @@ var defaultCoinbaseMaturity, defaultMinFrozenPeriod = consensus.CoinbaseMaturity
 
 func (e *WEnv) reset() {
 	consensus.CoinbaseMaturity, consensus.MinFrozenPeriod = defaultCoinbaseMaturity, defaultMinFrozenPeriod
+	consensus.MASSIP0002WarmUpHeight = defaultWarmUpHeight // op `warmup` (eng_led.go) lowers it for one history
 	e.Close()
 	os.RemoveAll(e.dir)
 	os.MkdirAll(e.dir, 0700)
